@@ -659,6 +659,10 @@ class AdditiveKernel(Kernel):
 
     def __getitem__(self, index) -> Kernel:
         new_kernel = deepcopy(self)
+        # a batch shape of its own (set by expand_batch) is indexed like the components' batch shapes
+        if len(self._batch_shape) and len(self._batch_shape) == len(self.batch_shape):
+            index_ = index if isinstance(index, tuple) else (index,)
+            new_kernel._batch_shape = torch.empty(*self._batch_shape, 0)[(*index_, slice(None))].shape[:-1]
         for i, kernel in enumerate(self.kernels):
             new_kernel.kernels[i] = kernel.__getitem__(index)
 
@@ -716,6 +720,10 @@ class ProductKernel(Kernel):
 
     def __getitem__(self, index) -> Kernel:
         new_kernel = deepcopy(self)
+        # a batch shape of its own (set by expand_batch) is indexed like the components' batch shapes
+        if len(self._batch_shape) and len(self._batch_shape) == len(self.batch_shape):
+            index_ = index if isinstance(index, tuple) else (index,)
+            new_kernel._batch_shape = torch.empty(*self._batch_shape, 0)[(*index_, slice(None))].shape[:-1]
         for i, kernel in enumerate(self.kernels):
             new_kernel.kernels[i] = kernel.__getitem__(index)
 
